@@ -281,15 +281,16 @@ func runC08(rt *rapid.T, c c08Case) {
 			classes["second-connection"] = true
 		}
 		if timed && g > 0 {
-			if !writeTimeoutOff && rapid.IntRange(0, 5).Draw(rt, "writeTimeoutOff") == 0 {
-				writeTimeoutOff = true
+			justOff := false
+			if !writeTimeoutOff && rapid.IntRange(0, 2).Draw(rt, "writeTimeoutOff") == 0 {
+				writeTimeoutOff, justOff = true, true
 				if err := w.conn.UpdateConfigOptions(hsms.WithWriteTimeout(0)); err != nil {
 					fail("UpdateConfigOptions(WithWriteTimeout(0)): %v", err)
 				}
 				hist = append(hist, "<write timeout switched off at runtime>")
 				classes["write-timeout-off-at-runtime"] = true
 			}
-			if rapid.Bool().Draw(rt, "pause") && (m.Selected || time.Until(nsSince.Add(c08T7)) > c08Pause+20*time.Millisecond) {
+			if (justOff || rapid.Bool().Draw(rt, "pause")) && (m.Selected || time.Until(nsSince.Add(c08T7)) > c08Pause+20*time.Millisecond) {
 				time.Sleep(c08Pause)
 				synctest.Wait()
 				hist = append(hist, fmt.Sprintf("<%v pass>", c08Pause))
